@@ -707,6 +707,10 @@ func (ex *Executor) execLookup(st *State, fr *Frame, x *ssa.Lookup) bool {
 	}
 	ex.loadedFacts(st, Val{T: val, Ty: mt.Elem()})
 	rv = ex.recover(rv)
+	if ex.observed("maplookup") && fr.depth <= ex.observeDepth() {
+		// a contract may observe map lookups (e.g. in a package-level table): event "call maplookup(map, key) as (value, present)"
+		st.events = append(st.events, &Event{Kind: "call", Fn: "maplookup", Args: []Val{m, k}, Res: []Val{rv, {T: in, Ty: types.Typ[types.Bool]}}, Pos: ex.pos(x)})
+	}
 	if x.CommaOk {
 		fr.vals[x] = Val{IsTuple: true, Fs: []Val{rv, {T: in, Ty: types.Typ[types.Bool]}}, Ty: x.Type()}
 	} else {
